@@ -820,6 +820,10 @@ func (e *FnExec) noteCall(st *State, key string, args []*Term, sig *types.Signat
 			}
 		}
 	}
+	// callrecv(name): the receiver of that call
+	if gs, ok := e.callArgs[name+"@recv"]; ok && off == 1 && len(args) > 0 && len(gs) == 1 && gs[0].v.Sort == args[0].Sort {
+		e.addFact(st, Eq(gs[0].v, args[0]))
+	}
 }
 
 // qualifiedCallName: "param.Method" when the call is a method call whose receiver is a
@@ -967,10 +971,14 @@ func (e *FnExec) initCallArgGhosts() {
 	for _, t := range texts {
 		for {
 			i := strings.Index(t, "callarg(")
+			n := len("callarg(")
+			if j := strings.Index(t, "callrecv("); j >= 0 && (i < 0 || j < i) {
+				i, n = j, len("callrecv(")
+			}
 			if i < 0 {
 				break
 			}
-			t = t[i+len("callarg("):]
+			t = t[i+n:]
 			j := strings.IndexAny(t, ",)")
 			if j < 0 {
 				break
@@ -997,6 +1005,10 @@ func (e *FnExec) initCallArgGhosts() {
 				gs = append(gs, specVar{Var(fmt.Sprintf("callarg!%s!%d", lastName(key), k), sortOf(t)), t})
 			}
 			e.callArgs[lastName(key)] = gs
+			if sig.Recv() != nil {
+				rt := sig.Recv().Type()
+				e.callArgs[lastName(key)+"@recv"] = []specVar{{Var(fmt.Sprintf("callrecv!%s", lastName(key)), sortOf(rt)), rt}}
+			}
 		}
 	}
 }
@@ -1008,6 +1020,9 @@ func (e *FnExec) uncontractedCall(st *State, key string, c *ssa.CallCommon, res 
 	}
 	if key != "" && e.P.effectFree(key) {
 		e.assumed["effect-free (allow-list): "+key]++
+		if isLockAcquire(key) {
+			e.lockAcquired(st, pos)
+		}
 	} else {
 		e.note("call to %s has no contract: all memory havocked", name)
 		e.assumed["uncontracted call (havoc): "+name]++
@@ -1657,4 +1672,48 @@ func sigKey(t types.Type) string {
 		parts = append(parts, typeKey(sig.Results().At(i).Type()))
 	}
 	return sanitize(strings.Join(parts, "_"))
+}
+
+func isLockAcquire(key string) bool {
+	switch key {
+	case "(*sync.Mutex).Lock", "(*sync.RWMutex).Lock", "(*sync.RWMutex).RLock":
+		return true
+	}
+	return false
+}
+
+// lockAcquired: the function has just taken a lock. Under an `atlock modifies ...` clause the named
+// (lock-protected) locations are given arbitrary new contents -- what other goroutines may have done
+// while this one did not hold the lock -- and the state is remembered for atlock(e).
+func (e *FnExec) lockAcquired(st *State, pos token.Pos) {
+	if e.con == nil || len(e.con.AtLock) == 0 {
+		return
+	}
+	env := e.specEnv(st, pos)
+	var items []locItem
+	for _, m := range e.con.AtLock {
+		its, err := env.modItems(m)
+		if err != nil {
+			e.errf("%v", err)
+			continue
+		}
+		items = append(items, its...)
+	}
+	classes := map[string]string{}
+	for _, it := range items {
+		classes[it.class] = it.sort
+	}
+	for _, cl := range sortedKeys(classes) {
+		so := classes[cl]
+		old := e.getMem(st, cl, so)
+		nw := e.freshMem(st, "lk_"+cl, so)
+		l := BVar("l", "Loc")
+		es := arrayElemSort(so)
+		e.addFact(st, Forall([]*Term{l}, Imp(Not(inItems(l, cl, items)), Eq(App("select", es, nw, l), App("select", es, old, l)))))
+		e.setMem(st, cl, so, nw)
+	}
+	e.assumed["interference at lock acquisition (atlock clause): the named locations are arbitrary after Lock/RLock"]++
+	snap := st.clone()
+	snap.lockSnap = nil
+	st.lockSnap = snap
 }
